@@ -1,6 +1,7 @@
 /- Driver handlers for the C14 ops (harness/ops_c14.c): `k_*` kernels by specification, `c14_*` value-level entry points. -/
 import Mpir.Proto
 import Mpir.Model.C14Spec
+import Mpir.Gen.ShippedParams
 namespace Mpir.Ops.C14
 open Mpir Mpir.C14
 
@@ -10,7 +11,23 @@ private def nat? : Tok → Option Nat
   | _ => none
 private def magTok (n : Nat) (v : Nat) : Tok := .vec (toLimbs n v)
 
+/-- names of the `Valid` clauses a table violates (under any build configuration) -/
+def failingClauses (p : Params.Params) : List String :=
+  let m := Gen.minSizes
+  let per (c : Params.Cfg) : List String :=
+    (if decide (Params.NoOverflow p) then [] else ["NoOverflow"]) ++ (if decide (Params.MulNOk m c p) then [] else ["MulNOk"]) ++
+    (if decide (Params.SqrOk m c p) then [] else ["SqrOk"]) ++ (if decide (Params.KaraRecOk m c p) then [] else ["KaraRecOk"]) ++
+    (if decide (Params.MulUnbalancedOk p) then [] else ["MulUnbalancedOk"]) ++ (if decide (Params.MulhighOk p) then [] else ["MulhighOk"]) ++
+    (if decide (Params.LowerBoundsOk p) then [] else ["LowerBoundsOk"]) ++ (if decide (Params.RedcOk c p) then [] else ["RedcOk"]) ++
+    (if decide (Params.Mod1Ok p) then [] else ["Mod1Ok"]) ++ (if decide (Params.StrOk p) then [] else ["StrOk"]) ++
+    (if decide (Params.HenselOk p) then [] else ["HenselOk"])
+  (Params.allCfgs.flatMap per).eraseDups
+
 def handle : Handler
+  | "c14_table_valid", [.str f] =>
+      match Gen.shippedParams.find? (fun p => p.file.toUTF8.toList == f) with
+      | some p => some [strTok (",".intercalate (failingClauses p))]
+      | none => some [.err "unknown-table"]
   | "k_addlsh1_n", [.num _, .vec u, .vec v] => some (pr (addlsh_n u v 1))
   | "k_sublsh1_n", [.num _, .vec u, .vec v] => some (pr (sublsh_n u v 1))
   | "k_addlsh_n", [.num _, .vec u, .vec v, .num c] => some (pr (addlsh_n u v c.toNat))
